@@ -70,6 +70,7 @@ func partialGrammar(full bool) *gen.Grammar {
 	fn(g, "isset", B, tyMNS, N)
 	fn(g, "len", N, tyLNum)
 	fn(g, "max", N, tyLNum)
+	fn(g, "min", N, tyLNum)
 	fn(g, "if", N, B, N, N)
 	// guards: the unselected operand of && / || / ?: may hold a partial operation that is undefined
 	bin(g, "&&", B, B, B)
